@@ -1,3 +1,6 @@
+(* ADDED IN THE THIRD ROUND: exactness in every reachable state with clears and reopens (C08_has_exact_in_every_state), after crash recovery
+   (C08_exact_after_crash_recovery), replay over any bit mixture with set and drop updates; source-derived page constants.
+   ---- header of the earlier rounds: ---- *)
 (* C08 — has() and contiguous_length are exact (pinned statements; proofs in BitfieldFacts.v,
    ContigReplay.v, ContigBridge.v). All statements are for unbounded indices: any number of
    32768-bit pages, ranges straddling any number of page edges.
@@ -10,9 +13,11 @@
    ANY mixture of old and new bitfield pages yields the exact bitfield and the exact contiguous length.
    Partial: that the disk really holds such a mixture after a crash (flush schedule) and that has() is false
    beyond the length (no append ever sets a bit >= length) are established by the correspondence runs. *)
+From HC Require Import CrashClear1.
 From HC Require Import Base Codec Crypto Storage Bitfield Oplog Merkle SrcConsts ConstTie.
 From HC Require Import Base NMap Storage Bitfield Core BitfieldFacts ContigBridge.
 From HC Require ContigReplay.
+From HC Require Import Core Refine ClearRefine Unified1 Corollaries CrashCore1.
 
 Theorem C08_has_after_update : forall b u i,
   bf_get (bf_apply b u) i =
@@ -85,6 +90,40 @@ Theorem C08_source_constants :
      tied src_LEADER_SIZE (len fr - len payload) /\ tied src_CRC_SIZE (len (le_bytes 4 (cr_crc cr [])))).
 Proof. exact source_constants_are_the_models. Qed.
 
+Theorem C08_has_exact_in_every_state :
+  forall (cr : crypto) (c : core) (d : disk) (bs : list bytes) (cl : N -> bool),
+         FInv cr c d bs cl ->
+         (forall i : N, core_has c i = held (N.of_nat (Datatypes.length bs)) cl i) /\
+         (forall i : N, N.of_nat (Datatypes.length bs) <= i -> core_has c i = false) /\
+         i_contiguous (core_info c) = spec_contig bs cl.
+Proof. exact has_exact_everywhere. Qed.
+
+Theorem C08_replay_over_crash_store_exact :
+  forall (cr : crypto) (bs : list bytes) (tf : file) (l : list entry) (t : mtree) 
+           (d : bitfield) (h : header) (t' : mtree) (b' : bitfield) (h' : header) (kf n : N),
+         replay_entries cr tf (t, d, h) l = Ok (t', b', h') ->
+         Reopen.echain cr bs kf l n ->
+         hd_contig h = kf ->
+         (forall i : N, i < kf -> bf_get d i = true) ->
+         (forall i : N, n <= i -> bf_get d i = false) ->
+         (forall i : N, bf_get b' i = (i <? n)) /\ hd_contig h' = n /\ b' = fold_left bf_apply (updates_of l) d.
+Proof. exact replay_bitfield. Qed.
+
+Theorem C08_exact_after_crash_recovery :
+  forall (cr : crypto) (c : core) (d : disk) (bs : list bytes) (cl : N -> bool),
+         YInv cr c d bs cl -> obs_cleared c d bs cl.
+Proof. exact YInv_observations. Qed.
+
+Theorem C08_replay_over_any_bit_mixture_with_clears :
+  forall (cr : crypto) (tf : file) (l : list entry) (t : mtree) (f : file) (h : header) 
+           (t' : mtree) (b' : bitfield) (h' : header) (n : N) (cl : N -> bool),
+         replay_entries cr tf (t, bf_open f, h) l = Ok (t', b', h') ->
+         drops_nonempty (updates_of l) ->
+         BfY f (updates_of l) (hd_contig h) n cl ->
+         (forall i : N, bf_get b' i = held n cl i) /\
+         exact_contig b' (hd_contig h') /\ b' = fold_left bf_apply (updates_of l) (bf_open f).
+Proof. exact replay_bitfield_Y. Qed.
+
 Print Assumptions C08_has_after_update.
 Print Assumptions C08_has_after_set_range.
 Print Assumptions C08_changed_pages_are_dirty.
@@ -96,3 +135,7 @@ Print Assumptions C08_contiguous_length_unique.
 Print Assumptions C08_contiguous_initially.
 Print Assumptions C08_replay_exact.
 Print Assumptions C08_source_constants.
+Print Assumptions C08_has_exact_in_every_state.
+Print Assumptions C08_replay_over_crash_store_exact.
+Print Assumptions C08_exact_after_crash_recovery.
+Print Assumptions C08_replay_over_any_bit_mixture_with_clears.
